@@ -112,17 +112,19 @@ func (s *spyServer) Publish(vaaBytes []byte) error {
 	defer s.subsMu.Unlock()
 
 	var v *vaa.VAA
+	var decodeErr error
 
 	for _, sub := range s.subs {
 		if len(sub.filters) == 0 {
 			sub.ch <- message{vaaBytes: vaaBytes}
 		} else {
-			if v == nil {
-				var err error
-				v, err = vaa.Unmarshal(vaaBytes)
-				if err != nil {
-					return err
-				}
+			if v == nil && decodeErr == nil {
+				v, decodeErr = vaa.Unmarshal(vaaBytes)
+			}
+			if decodeErr != nil {
+				// No emitter to match filters against. Keep going: the map order is random and
+				// subscribers without filters still get every VAA.
+				continue
 			}
 
 			for _, fi := range sub.filters {
@@ -133,7 +135,7 @@ func (s *spyServer) Publish(vaaBytes []byte) error {
 		}
 	}
 
-	return nil
+	return decodeErr
 }
 
 func (s *spyServer) SubscribeSignedVAA(req *spyv1.SubscribeSignedVAARequest, resp spyv1.SpyRPCService_SubscribeSignedVAAServer) error {
